@@ -18,7 +18,9 @@
 package main
 
 import (
+	"context"
 	"fmt"
+	"io/fs"
 	"math/rand"
 	"sort"
 	"strings"
@@ -28,6 +30,7 @@ import (
 
 	"github.com/olareg/olareg/internal/cache"
 	"github.com/olareg/olareg/internal/verif/vh"
+	"github.com/olareg/olareg/types"
 )
 
 type evt struct {
@@ -70,6 +73,23 @@ type conf struct {
 	Shared   bool          `json:"sharedKeys"`
 }
 
+// cleanupErr is the error a failing cleanup reports for value v.  The property speaks of any error, and the real callbacks
+// (upload cancel, repository collection) can fail with every class the stores know - among them "not found" and "does not
+// exist" from a file that is already gone - so the class rotates with the value instead of being one opaque error.
+func cleanupErr(v int64) error {
+	switch v % 5 {
+	case 1:
+		return fmt.Errorf("cleanup failed: %w", types.ErrNotFound)
+	case 2:
+		return fmt.Errorf("cleanup failed: %w", fs.ErrNotExist)
+	case 3:
+		return fmt.Errorf("cleanup failed: %w", context.Canceled)
+	case 4:
+		return types.ErrNotFound
+	}
+	return fmt.Errorf("cleanup failed")
+}
+
 func newCache(c conf, s *shadow, bracketViol *atomic.Int64) *cache.Cache[int, int64] {
 	o := cache.Opts[int, int64]{Age: c.Age, Count: c.Count, PruneFn: func(k int, v int64) error {
 		t0 := s.now()
@@ -83,7 +103,7 @@ func newCache(c conf, s *shadow, bracketViol *atomic.Int64) *cache.Cache[int, in
 		defer s.mu.Unlock()
 		if s.failing[v] && s.failOn.Load() {
 			s.log = append(s.log, evt{"prune", k, v, true, t0, s.now(), -1})
-			return fmt.Errorf("cleanup failed")
+			return cleanupErr(v)
 		}
 		s.cleaned[v] = true
 		s.log = append(s.log, evt{"prune", k, v, false, t0, s.now(), -1})
@@ -563,7 +583,7 @@ func blockRun(r *vh.Run, idx int) {
 			started <- struct{}{}
 			<-gate
 			if fail {
-				return fmt.Errorf("cleanup failed")
+				return cleanupErr(v)
 			}
 		}
 		mu.Lock()
